@@ -857,6 +857,19 @@ func (p c08) corrupt(ctx *core.RunCtx, g *c08Gen, e *c08Entry, v ser, data []byt
 		}
 		// (a changed character of a textual field can give another valid text whose canonical form has another
 		// length: the byte accounting below is a statement about binary length and flag fields only)
+		// a flag inside a textual field is written as "0x00" / "0x01": when one of its characters was replaced and the
+		// text is still accepted, the flag the decoder took for it is the one it writes back - a value outside the
+		// domain of the flag that is silently read as another one is a corrupted flag accepted without an error
+		if textual && width == 1 && r2.err == nil && len(re) == len(bad) {
+			for st := pos - 3; st <= pos; st++ {
+				if st >= 1 && st+4 <= len(bad) && bad[st] == '0' && bad[st+1] == 'x' && bad[st-1] == '"' && st+4 < len(bad) && bad[st+4] == '"' && pos >= st+2 {
+					if string(re[st:st+4]) != string(bad[st:st+4]) && data[st] == '0' && data[st+1] == 'x' {
+						ctx.Fail("corruption", cls+"|flag-out-of-domain-accepted", "a flag written as %q was corrupted to %q and accepted with a nil error: the decoded object writes %q there", string(data[st:st+4]), string(bad[st:st+4]), string(re[st:st+4]))
+						return
+					}
+				}
+			}
+		}
 		if r2.err == nil && kind != rdUnmarshal && !e.Keyed && !textual && int64(len(re)) != res.n {
 			ctx.Fail("corruption", cls+"|accepted-truncated", "corrupted encoding accepted with nil error: claims n=%d consumed but the decoded object encodes to %d bytes", res.n, len(re))
 			return
